@@ -7,6 +7,7 @@ DEFAULT_SWITCHES = {
     "CheckOrder": '"flag-table"', "ClearLoserRetries": "TRUE", "InsertOrder": '"value-key"', "SnapshotRecheck": "TRUE",
     "CopyLocksBuckets": "TRUE", "PublishBeforeFlagClear": "TRUE", "SizeTarget": '"modified"', "CopyRecounts": "TRUE",
     "FnBeforeRetry": "FALSE", "BroadcastOnResizeEnd": "TRUE", "UnlockOnNewerTable": "TRUE", "ZeroOnAbsentDelete": "TRUE", "RangeSnapshotsTable": "TRUE", "LoadOnMissWaits": "FALSE", "ResizeRereadsTable": "TRUE", "CopySkipsEmptyBuckets": "FALSE", "ClearChecksCounter": "FALSE",
+    "ShrinkGiveUpClearsFlag": "TRUE",
 }
 
 # alternative value of each switch and the families expected to refute it (vacuity guard + witness generator)
@@ -28,6 +29,7 @@ ALTERNATIVES = {
     "ResizeRereadsTable=FALSE": ({"ResizeRereadsTable": "FALSE"}, ["S17-stale-shrink-vs-clear"]),
     "CopySkipsEmptyBuckets=TRUE": ({"CopySkipsEmptyBuckets": "TRUE"}, ["S4c-grow-vs-insert-into-empty-bucket"]),
     "ClearChecksCounter=TRUE": ({"ClearChecksCounter": "TRUE"}, ["S6b-clear-empty"]),
+    "ShrinkGiveUpClearsFlag=FALSE": ({"ShrinkGiveUpClearsFlag": "FALSE"}, ["S17-stale-shrink-vs-clear"]),
     "ZeroOnAbsentDelete=FALSE": ({"ZeroOnAbsentDelete": "FALSE"}, ["S13-compute-delete-absent"]),
 }
 
